@@ -395,6 +395,9 @@ def run_case(case):
     solver.chooser = make_chooser(prep, case.get("chooser", "first"), case.get("seed", 0))
     before = solver.snapshot()
     solver.events = []
+    solver.n_solves = 0
+    # finite domains: every search needs far fewer calls than there are assignments x goals
+    solver.max_solves = 50 + 4 * (len(goals) + 1) * (solver.evaluator().n + 2)
     exc = None
     res = None
     try:
@@ -428,7 +431,9 @@ def run_case(case):
             if after != before:
                 report("stack", "solver state changed by a refused call", outcome="refused")
         else:
-            if isinstance(exc, KeyError):
+            if isinstance(exc, brute.BruteBudgetExceeded):
+                py_res = "err:nontermination"
+            elif isinstance(exc, KeyError):
                 py_res = "err:key"
             elif isinstance(exc, PysmtValueError):
                 py_res = "err:cast"
@@ -682,16 +687,36 @@ CHOOSERS = ["first", "random", "random", "worst", "best"]
 
 
 def gen_cases(ctx):
-    """Yields case dicts.  The exhaustive BV grid first, then the sampled families."""
+    """Yields (family, case).  The exhaustive BV grid interleaved 3:1 with the sampled families
+    (so that every budget sees all families), then sampled cases only."""
+    grid = _gen_grid(ctx)
+    samp = _gen_sampled(ctx)
+    k = 0
+    for item in grid:
+        yield item
+        k += 1
+        if k % 3 == 0:
+            yield next(samp)
+    ctx.extra["exhaustive"] = True
+    ctx.extra["grid_cases"] = k
+    for item in samp:
+        yield item
+
+
+def _mk(rng, vars_, asserts, goals, routine, strat, mixin):
+    return {"vars": vars_, "asserts": asserts, "goals": goals, "routine": routine,
+            "strategy": strat, "mixin": mixin, "chooser": rng.choice(CHOOSERS),
+            "seed": rng.getrandbits(30)}
+
+
+def _gen_grid(ctx):
     rng = ctx.rng
     quick = ctx.tier == "quick"
     strategies = ["linear", "binary"]
     mixins = ["sua", "incr"]
 
-    def mk(vars_, asserts, goals, routine, strat, mixin):
-        return {"vars": vars_, "asserts": asserts, "goals": goals, "routine": routine,
-                "strategy": strat, "mixin": mixin, "chooser": rng.choice(CHOOSERS),
-                "seed": rng.getrandbits(30)}
+    def mk(*a):
+        return _mk(rng, *a)
 
     # (E) exhaustive: every system of <= 2 palette constraints over two BV variables
     widths = [2, 3] if quick else [1, 2, 3]
@@ -717,12 +742,21 @@ def gen_cases(ctx):
                 gs = rng.sample(pool, rng.choice([1, 2, 2, 2, 3]))
                 for routine in ("boxed", "lexi", "pareto"):
                     yield "grid", mk(vars_, asserts, gs, routine, rng.choice(strategies), rng.choice(mixins))
-    ctx.extra["exhaustive"] = True
     ctx.extra["exhaustive_what"] = ("all systems of <= 2 constraints from a %d-element palette over two BV "
                                     "variables, widths %s, x %d single-goal kinds (x strategy x mix-in in "
                                     "the thorough tier)" % (len(bv_palette(2)), widths, len(bv_goals(2))))
 
-    # (S) sampled families until the budget is used
+
+
+def _gen_sampled(ctx):
+    """sampled families, endless"""
+    rng = ctx.rng
+    strategies = ["linear", "binary"]
+    mixins = ["sua", "incr"]
+
+    def mk(*a):
+        return _mk(rng, *a)
+
     while True:
         fam = rng.choice(["int", "int", "int", "bool", "bool", "mixed", "bv3", "unsupported"])
         routine = rng.choice(["single", "single", "boxed", "lexi", "pareto"])
@@ -911,7 +945,7 @@ def _spec_queries(prep, case):
 def run(ctx):
     brute.register(get_env())
     lean_ok = [True]
-    budget = (75 if ctx.tier == "quick" else 780) if not os.environ.get("C18_BUDGET") else int(os.environ["C18_BUDGET"])
+    budget = (58 if ctx.tier == "quick" else 780) if not os.environ.get("C18_BUDGET") else int(os.environ["C18_BUDGET"])
     t_end = ctx.t0 + budget
 
     # --- OptSearchInterval grid (K)
@@ -931,15 +965,9 @@ def run(ctx):
     # --- optimisation routines (K + S)
     batch = []
     spec_batch = []
-    n_grid_done = False
+    ctx.extra["exhaustive"] = False
     for fam, case in gen_cases(ctx):
-        if fam != "grid" and not n_grid_done:
-            n_grid_done = True
-            ctx.extra["grid_cases"] = ctx.evaluations
         if time.time() > t_end:
-            if fam == "grid":
-                ctx.extra["exhaustive"] = False
-                ctx.extra["grid_cut_short"] = True
             break
         _one(ctx, fam, case, batch, spec_batch)
         if len(batch) >= 4000:
